@@ -983,10 +983,41 @@ struct FindWrap {
     inner: bsl::FindTransaction,
     calls: u64,
 }
+// every callback is forwarded: the wrapped visitor must see exactly what it would see when passed directly
 impl Visitor for FindWrap {
+    fn visit_block_header(&mut self, header: &bsl::BlockHeader) -> ControlFlow<()> {
+        self.inner.visit_block_header(header)
+    }
+    fn visit_block_begin(&mut self, total_transactions: usize) {
+        self.inner.visit_block_begin(total_transactions)
+    }
     fn visit_transaction(&mut self, tx: &bsl::Transaction) -> ControlFlow<()> {
         self.calls += 1;
         self.inner.visit_transaction(tx)
+    }
+    fn visit_tx_ins(&mut self, total_inputs: usize) {
+        self.inner.visit_tx_ins(total_inputs)
+    }
+    fn visit_tx_in(&mut self, vin: usize, tx_in: &bsl::TxIn) -> ControlFlow<()> {
+        self.inner.visit_tx_in(vin, tx_in)
+    }
+    fn visit_tx_outs(&mut self, total_outputs: usize) {
+        self.inner.visit_tx_outs(total_outputs)
+    }
+    fn visit_tx_out(&mut self, vout: usize, tx_out: &bsl::TxOut) -> ControlFlow<()> {
+        self.inner.visit_tx_out(vout, tx_out)
+    }
+    fn visit_witness(&mut self, vin: usize) -> ControlFlow<()> {
+        self.inner.visit_witness(vin)
+    }
+    fn visit_witness_total_element(&mut self, witness_total: usize) {
+        self.inner.visit_witness_total_element(witness_total)
+    }
+    fn visit_witness_element(&mut self, witness_i: usize, witness_element: &[u8]) {
+        self.inner.visit_witness_element(witness_i, witness_element)
+    }
+    fn visit_witness_end(&mut self) {
+        self.inner.visit_witness_end()
     }
 }
 
@@ -1020,6 +1051,10 @@ fn run_block(inp: &[u8], brk: i64) -> String {
                 let res = bsl::Block::visit(view, &mut fw);
                 let calls = fw.calls;
                 let got = fw.inner.tx_found();
+                // the visitor passed directly, as a user would: same outcome as through the counting wrapper
+                let mut direct = bsl::FindTransaction::new(*id);
+                let res_direct = bsl::Block::visit(view, &mut direct);
+                if res_direct != res || direct.tx_found() != got { ok = false; why = "find:direct_differs".into(); }
                 match first {
                     Some(ix) => {
                         if res != Err(Error::VisitBreak) { ok = false; why = format!("find{}:no_break", ix); }
